@@ -13,19 +13,27 @@ import (
 
 	"go.opentelemetry.io/collector/component"
 	"go.opentelemetry.io/collector/config/configtelemetry"
+	"go.opentelemetry.io/collector/confmap"
 	"go.opentelemetry.io/collector/connector"
+	"go.opentelemetry.io/collector/connector/xconnector"
 	"go.opentelemetry.io/collector/consumer"
+	"go.opentelemetry.io/collector/consumer/xconsumer"
 	"go.opentelemetry.io/collector/exporter"
+	"go.opentelemetry.io/collector/exporter/xexporter"
 	"go.opentelemetry.io/collector/extension"
 	"go.opentelemetry.io/collector/internal/sharedcomponent"
 	"go.opentelemetry.io/collector/otelcol"
 	"go.opentelemetry.io/collector/pdata/pcommon"
 	"go.opentelemetry.io/collector/pdata/plog"
 	"go.opentelemetry.io/collector/pdata/pmetric"
+	"go.opentelemetry.io/collector/pdata/pprofile"
 	"go.opentelemetry.io/collector/pdata/ptrace"
 	"go.opentelemetry.io/collector/pipeline"
+	"go.opentelemetry.io/collector/pipeline/xpipeline"
 	"go.opentelemetry.io/collector/processor"
+	"go.opentelemetry.io/collector/processor/xprocessor"
 	"go.opentelemetry.io/collector/receiver"
+	"go.opentelemetry.io/collector/receiver/xreceiver"
 	"go.opentelemetry.io/collector/service"
 	"go.opentelemetry.io/collector/service/pipelines"
 	"go.opentelemetry.io/collector/service/telemetry"
@@ -92,9 +100,10 @@ func ParseTrail(s string) ([]TrailElem, error) {
 
 // FaultErr is the error an instrumented component returns when told to fail.
 type FaultErr struct {
-	Op     string // start | shutdown
+	Op     string // start | shutdown | ready | notready | notifyconfig
 	Key    string
 	Serial int
+	At     int // index of the event (the call) that raised it
 }
 
 func (e *FaultErr) Error() string { return e.Token() + " (" + e.Key + ")" }
@@ -109,6 +118,9 @@ type World struct {
 	// FailStart / FailStop: fault keys of the components that fail.  Fault key =
 	// Canonical(node key), except processors: "processor:<id>" (all instances).
 	FailStart, FailStop map[string]bool
+	// FailCall: extension capability callbacks that fail: "ready:<ext key>",
+	// "notready:<ext key>", "notifyconfig:<ext key>".
+	FailCall map[string]bool
 	// OnStart, when set, is called at the beginning of every component Start.
 	OnStart func(key string, serial int)
 
@@ -126,7 +138,7 @@ type World struct {
 
 // NewWorld prepares factories for t.
 func NewWorld(t Topology) *World {
-	return &World{T: t, FailStart: map[string]bool{}, FailStop: map[string]bool{}, creates: map[string]int{}, next: map[string][]any{},
+	return &World{T: t, FailStart: map[string]bool{}, FailStop: map[string]bool{}, FailCall: map[string]bool{}, creates: map[string]int{}, next: map[string][]any{},
 		sharedR: sharedcomponent.NewMap[component.ID, *comp](), sharedE: sharedcomponent.NewMap[component.ID, *comp]()}
 }
 
@@ -210,6 +222,7 @@ func (w *World) newComp(key, faultKey string) *comp {
 func (c *comp) fault(op string) error {
 	e := &FaultErr{Op: op, Key: c.key, Serial: c.serial}
 	c.w.mu.Lock()
+	e.At = len(c.w.events) - 1
 	c.w.raised = append(c.w.raised, e)
 	c.w.mu.Unlock()
 	return e
@@ -285,8 +298,54 @@ func newPayload(sig, tag, trail string) any {
 		rs.Resource().Attributes().PutStr(trailAttr, trail)
 		rs.ScopeSpans().AppendEmpty().Spans().AppendEmpty().SetName(tag)
 		return v
+	case "profiles":
+		v := pprofile.NewProfiles()
+		rp := v.ResourceProfiles().AppendEmpty()
+		rp.Resource().Attributes().PutStr(tagAttr, tag)
+		rp.Resource().Attributes().PutStr(trailAttr, trail)
+		rp.ScopeProfiles().AppendEmpty().Profiles().AppendEmpty()
+		return v
 	}
 	panic("topo: unknown signal " + sig)
+}
+
+// NewPayload builds the payload a receiver of signal sig emits.
+func NewPayload(sig, tag string) any { return newPayload(sig, tag, "") }
+
+// MarkReadOnly marks the payload as shared.
+func MarkReadOnly(v any) {
+	switch x := v.(type) {
+	case plog.Logs:
+		x.MarkReadOnly()
+	case pmetric.Metrics:
+		x.MarkReadOnly()
+	case ptrace.Traces:
+		x.MarkReadOnly()
+	case pprofile.Profiles:
+		x.MarkReadOnly()
+	}
+}
+
+// Untouched tells whether the payload still carries an empty trail (no
+// processor changed it).
+func Untouched(v any) bool {
+	_, trail := readPayload(v)
+	return trail == ""
+}
+
+// IsReadOnly tells whether the payload is marked as shared.
+func IsReadOnly(v any) bool {
+	switch x := v.(type) {
+	case plog.Logs:
+		return x.IsReadOnly()
+	case pmetric.Metrics:
+		return x.IsReadOnly()
+	case ptrace.Traces:
+		return x.IsReadOnly()
+	case pprofile.Profiles:
+		return x.IsReadOnly()
+	}
+	return false
 }
 
 func attrsOf(v any) (pcommon.Map, bool) {
@@ -302,6 +361,10 @@ func attrsOf(v any) (pcommon.Map, bool) {
 	case ptrace.Traces:
 		if x.ResourceSpans().Len() > 0 {
 			return x.ResourceSpans().At(0).Resource().Attributes(), true
+		}
+	case pprofile.Profiles:
+		if x.ResourceProfiles().Len() > 0 {
+			return x.ResourceProfiles().At(0).Resource().Attributes(), true
 		}
 	}
 	return pcommon.Map{}, false
@@ -344,6 +407,8 @@ func consumeAny(ctx context.Context, next any, v any) error {
 		return next.(consumer.Metrics).ConsumeMetrics(ctx, x)
 	case ptrace.Traces:
 		return next.(consumer.Traces).ConsumeTraces(ctx, x)
+	case pprofile.Profiles:
+		return next.(xconsumer.Profiles).ConsumeProfiles(ctx, x)
 	}
 	panic("topo: unknown payload type")
 }
@@ -353,6 +418,7 @@ type consumers struct {
 	consumer.Logs
 	consumer.Metrics
 	consumer.Traces
+	xconsumer.Profiles
 }
 
 func newConsumers(mutates bool, fn func(ctx context.Context, v any) error) consumers {
@@ -360,7 +426,8 @@ func newConsumers(mutates bool, fn func(ctx context.Context, v any) error) consu
 	l, _ := consumer.NewLogs(func(ctx context.Context, v plog.Logs) error { return fn(ctx, v) }, o)
 	m, _ := consumer.NewMetrics(func(ctx context.Context, v pmetric.Metrics) error { return fn(ctx, v) }, o)
 	t, _ := consumer.NewTraces(func(ctx context.Context, v ptrace.Traces) error { return fn(ctx, v) }, o)
-	return consumers{l, m, t}
+	p, _ := xconsumer.NewProfiles(func(ctx context.Context, v pprofile.Profiles) error { return fn(ctx, v) }, o)
+	return consumers{l, m, t, p}
 }
 
 type (
@@ -375,6 +442,10 @@ type (
 	tracesComp struct {
 		component.Component
 		consumer.Traces
+	}
+	profilesComp struct {
+		component.Component
+		xconsumer.Profiles
 	}
 )
 
@@ -398,14 +469,17 @@ func (w *World) receiverFactory() receiver.Factory {
 		key := w.registerNext(sig, id, next)
 		return w.newComp(key, key)
 	}
-	return receiver.NewFactory(component.MustNewType(RecvType), newCfg,
-		receiver.WithLogs(func(_ context.Context, s receiver.Settings, _ component.Config, n consumer.Logs) (receiver.Logs, error) {
+	return xreceiver.NewFactory(component.MustNewType(RecvType), newCfg,
+		xreceiver.WithProfiles(func(_ context.Context, s receiver.Settings, _ component.Config, n xconsumer.Profiles) (xreceiver.Profiles, error) {
+			return mk("profiles", s.ID, n), nil
+		}, stable),
+		xreceiver.WithLogs(func(_ context.Context, s receiver.Settings, _ component.Config, n consumer.Logs) (receiver.Logs, error) {
 			return mk("logs", s.ID, n), nil
 		}, stable),
-		receiver.WithMetrics(func(_ context.Context, s receiver.Settings, _ component.Config, n consumer.Metrics) (receiver.Metrics, error) {
+		xreceiver.WithMetrics(func(_ context.Context, s receiver.Settings, _ component.Config, n consumer.Metrics) (receiver.Metrics, error) {
 			return mk("metrics", s.ID, n), nil
 		}, stable),
-		receiver.WithTraces(func(_ context.Context, s receiver.Settings, _ component.Config, n consumer.Traces) (receiver.Traces, error) {
+		xreceiver.WithTraces(func(_ context.Context, s receiver.Settings, _ component.Config, n consumer.Traces) (receiver.Traces, error) {
 			return mk("traces", s.ID, n), nil
 		}, stable))
 }
@@ -424,21 +498,28 @@ func (w *World) sharedReceiverFactory() receiver.Factory {
 		}
 		return &handle{w: w, key: key, inner: sc}, nil
 	}
-	return receiver.NewFactory(component.MustNewType(SharedRecvType), newCfg,
-		receiver.WithLogs(func(_ context.Context, s receiver.Settings, _ component.Config, n consumer.Logs) (receiver.Logs, error) {
+	return xreceiver.NewFactory(component.MustNewType(SharedRecvType), newCfg,
+		xreceiver.WithProfiles(func(_ context.Context, s receiver.Settings, _ component.Config, n xconsumer.Profiles) (xreceiver.Profiles, error) {
+			return mk("profiles", s.ID, n)
+		}, stable),
+		xreceiver.WithLogs(func(_ context.Context, s receiver.Settings, _ component.Config, n consumer.Logs) (receiver.Logs, error) {
 			return mk("logs", s.ID, n)
 		}, stable),
-		receiver.WithMetrics(func(_ context.Context, s receiver.Settings, _ component.Config, n consumer.Metrics) (receiver.Metrics, error) {
+		xreceiver.WithMetrics(func(_ context.Context, s receiver.Settings, _ component.Config, n consumer.Metrics) (receiver.Metrics, error) {
 			return mk("metrics", s.ID, n)
 		}, stable),
-		receiver.WithTraces(func(_ context.Context, s receiver.Settings, _ component.Config, n consumer.Traces) (receiver.Traces, error) {
+		xreceiver.WithTraces(func(_ context.Context, s receiver.Settings, _ component.Config, n consumer.Traces) (receiver.Traces, error) {
 			return mk("traces", s.ID, n)
 		}, stable))
 }
 
-// Inject emits one payload tagged tag from the receiver node (signal, id).
+// Inject emits one fresh payload tagged tag from the receiver node (signal, id).
 func (w *World) Inject(recvKey, tag string) error {
-	parts := strings.SplitN(recvKey, ":", 3)
+	return w.InjectPayload(recvKey, NewPayload(strings.SplitN(recvKey, ":", 3)[1], tag))
+}
+
+// InjectPayload emits v from the receiver node (signal, id).
+func (w *World) InjectPayload(recvKey string, v any) error {
 	w.mu.Lock()
 	nexts := append([]any(nil), w.next[recvKey]...)
 	w.mu.Unlock()
@@ -446,7 +527,7 @@ func (w *World) Inject(recvKey, tag string) error {
 		return fmt.Errorf("receiver %s was never created", recvKey)
 	}
 	for _, n := range nexts {
-		if err := consumeAny(context.Background(), n, newPayload(parts[1], tag, "")); err != nil {
+		if err := consumeAny(context.Background(), n, v); err != nil {
 			return err
 		}
 	}
@@ -468,16 +549,20 @@ func (w *World) processorFactory() processor.Factory {
 			return consumeAny(withHop(ctx, elem), next, v)
 		})
 	}
-	return processor.NewFactory(component.MustNewType(ProcType), newCfg,
-		processor.WithLogs(func(_ context.Context, s processor.Settings, _ component.Config, n consumer.Logs) (processor.Logs, error) {
+	return xprocessor.NewFactory(component.MustNewType(ProcType), newCfg,
+		xprocessor.WithProfiles(func(_ context.Context, s processor.Settings, _ component.Config, n xconsumer.Profiles) (xprocessor.Profiles, error) {
+			c, cs := mk("profiles", s.ID, n)
+			return profilesComp{c, cs.Profiles}, nil
+		}, stable),
+		xprocessor.WithLogs(func(_ context.Context, s processor.Settings, _ component.Config, n consumer.Logs) (processor.Logs, error) {
 			c, cs := mk("logs", s.ID, n)
 			return logsComp{c, cs.Logs}, nil
 		}, stable),
-		processor.WithMetrics(func(_ context.Context, s processor.Settings, _ component.Config, n consumer.Metrics) (processor.Metrics, error) {
+		xprocessor.WithMetrics(func(_ context.Context, s processor.Settings, _ component.Config, n consumer.Metrics) (processor.Metrics, error) {
 			c, cs := mk("metrics", s.ID, n)
 			return metricsComp{c, cs.Metrics}, nil
 		}, stable),
-		processor.WithTraces(func(_ context.Context, s processor.Settings, _ component.Config, n consumer.Traces) (processor.Traces, error) {
+		xprocessor.WithTraces(func(_ context.Context, s processor.Settings, _ component.Config, n consumer.Traces) (processor.Traces, error) {
 			c, cs := mk("traces", s.ID, n)
 			return tracesComp{c, cs.Traces}, nil
 		}, stable))
@@ -502,16 +587,20 @@ func (w *World) exporterFactory() exporter.Factory {
 		w.count(key)
 		return w.newComp(key, key), w.recorder(key)
 	}
-	return exporter.NewFactory(component.MustNewType(ExpType), newCfg,
-		exporter.WithLogs(func(_ context.Context, s exporter.Settings, _ component.Config) (exporter.Logs, error) {
+	return xexporter.NewFactory(component.MustNewType(ExpType), newCfg,
+		xexporter.WithProfiles(func(_ context.Context, s exporter.Settings, _ component.Config) (xexporter.Profiles, error) {
+			c, cs := mk("profiles", s.ID)
+			return profilesComp{c, cs.Profiles}, nil
+		}, stable),
+		xexporter.WithLogs(func(_ context.Context, s exporter.Settings, _ component.Config) (exporter.Logs, error) {
 			c, cs := mk("logs", s.ID)
 			return logsComp{c, cs.Logs}, nil
 		}, stable),
-		exporter.WithMetrics(func(_ context.Context, s exporter.Settings, _ component.Config) (exporter.Metrics, error) {
+		xexporter.WithMetrics(func(_ context.Context, s exporter.Settings, _ component.Config) (exporter.Metrics, error) {
 			c, cs := mk("metrics", s.ID)
 			return metricsComp{c, cs.Metrics}, nil
 		}, stable),
-		exporter.WithTraces(func(_ context.Context, s exporter.Settings, _ component.Config) (exporter.Traces, error) {
+		xexporter.WithTraces(func(_ context.Context, s exporter.Settings, _ component.Config) (exporter.Traces, error) {
 			c, cs := mk("traces", s.ID)
 			return tracesComp{c, cs.Traces}, nil
 		}, stable))
@@ -530,16 +619,20 @@ func (w *World) sharedExporterFactory() exporter.Factory {
 		}
 		return &handle{w: w, key: key, inner: sc}, w.recorder(key), nil
 	}
-	return exporter.NewFactory(component.MustNewType(SharedExpType), newCfg,
-		exporter.WithLogs(func(_ context.Context, s exporter.Settings, _ component.Config) (exporter.Logs, error) {
+	return xexporter.NewFactory(component.MustNewType(SharedExpType), newCfg,
+		xexporter.WithProfiles(func(_ context.Context, s exporter.Settings, _ component.Config) (xexporter.Profiles, error) {
+			c, cs, err := mk("profiles", s.ID)
+			return profilesComp{c, cs.Profiles}, err
+		}, stable),
+		xexporter.WithLogs(func(_ context.Context, s exporter.Settings, _ component.Config) (exporter.Logs, error) {
 			c, cs, err := mk("logs", s.ID)
 			return logsComp{c, cs.Logs}, err
 		}, stable),
-		exporter.WithMetrics(func(_ context.Context, s exporter.Settings, _ component.Config) (exporter.Metrics, error) {
+		xexporter.WithMetrics(func(_ context.Context, s exporter.Settings, _ component.Config) (exporter.Metrics, error) {
 			c, cs, err := mk("metrics", s.ID)
 			return metricsComp{c, cs.Metrics}, err
 		}, stable),
-		exporter.WithTraces(func(_ context.Context, s exporter.Settings, _ component.Config) (exporter.Traces, error) {
+		xexporter.WithTraces(func(_ context.Context, s exporter.Settings, _ component.Config) (exporter.Traces, error) {
 			c, cs, err := mk("traces", s.ID)
 			return tracesComp{c, cs.Traces}, err
 		}, stable))
@@ -562,72 +655,193 @@ func (w *World) connectorFactory(c Connector) connector.Factory {
 			return consumeAny(ctx, next, newPayload(to, tag, extend(trail, elem)))
 		})
 	}
+	// A factory without any profiles pair is a plain connector.Factory (the graph must then treat every
+	// profiles pair as unsupported); otherwise an xconnector.Factory with exactly the generated cells.
+	usesProfiles := false
+	for _, p := range c.Pairs {
+		usesProfiles = usesProfiles || strings.Contains(p, "profiles")
+	}
 	var o []connector.FactoryOption
+	var xo []xconnector.FactoryOption
 	if c.Supports("logs", "logs") {
-		o = append(o, connector.WithLogsToLogs(func(_ context.Context, s connector.Settings, _ component.Config, n consumer.Logs) (connector.Logs, error) {
+		fLogsToLogs := func(_ context.Context, s connector.Settings, _ component.Config, n consumer.Logs) (connector.Logs, error) {
 			cp, cs := mk("logs", "logs", s.ID, n)
 			return logsComp{cp, cs.Logs}, nil
-		}, stable))
+		}
+		if usesProfiles {
+			xo = append(xo, xconnector.WithLogsToLogs(fLogsToLogs, stable))
+		} else {
+			o = append(o, connector.WithLogsToLogs(fLogsToLogs, stable))
+		}
 	}
 	if c.Supports("logs", "metrics") {
-		o = append(o, connector.WithLogsToMetrics(func(_ context.Context, s connector.Settings, _ component.Config, n consumer.Metrics) (connector.Logs, error) {
+		fLogsToMetrics := func(_ context.Context, s connector.Settings, _ component.Config, n consumer.Metrics) (connector.Logs, error) {
 			cp, cs := mk("logs", "metrics", s.ID, n)
 			return logsComp{cp, cs.Logs}, nil
-		}, stable))
+		}
+		if usesProfiles {
+			xo = append(xo, xconnector.WithLogsToMetrics(fLogsToMetrics, stable))
+		} else {
+			o = append(o, connector.WithLogsToMetrics(fLogsToMetrics, stable))
+		}
 	}
 	if c.Supports("logs", "traces") {
-		o = append(o, connector.WithLogsToTraces(func(_ context.Context, s connector.Settings, _ component.Config, n consumer.Traces) (connector.Logs, error) {
+		fLogsToTraces := func(_ context.Context, s connector.Settings, _ component.Config, n consumer.Traces) (connector.Logs, error) {
 			cp, cs := mk("logs", "traces", s.ID, n)
 			return logsComp{cp, cs.Logs}, nil
-		}, stable))
+		}
+		if usesProfiles {
+			xo = append(xo, xconnector.WithLogsToTraces(fLogsToTraces, stable))
+		} else {
+			o = append(o, connector.WithLogsToTraces(fLogsToTraces, stable))
+		}
+	}
+	if c.Supports("logs", "profiles") {
+		fLogsToProfiles := func(_ context.Context, s connector.Settings, _ component.Config, n xconsumer.Profiles) (connector.Logs, error) {
+			cp, cs := mk("logs", "profiles", s.ID, n)
+			return logsComp{cp, cs.Logs}, nil
+		}
+		xo = append(xo, xconnector.WithLogsToProfiles(fLogsToProfiles, stable))
 	}
 	if c.Supports("metrics", "logs") {
-		o = append(o, connector.WithMetricsToLogs(func(_ context.Context, s connector.Settings, _ component.Config, n consumer.Logs) (connector.Metrics, error) {
+		fMetricsToLogs := func(_ context.Context, s connector.Settings, _ component.Config, n consumer.Logs) (connector.Metrics, error) {
 			cp, cs := mk("metrics", "logs", s.ID, n)
 			return metricsComp{cp, cs.Metrics}, nil
-		}, stable))
+		}
+		if usesProfiles {
+			xo = append(xo, xconnector.WithMetricsToLogs(fMetricsToLogs, stable))
+		} else {
+			o = append(o, connector.WithMetricsToLogs(fMetricsToLogs, stable))
+		}
 	}
 	if c.Supports("metrics", "metrics") {
-		o = append(o, connector.WithMetricsToMetrics(func(_ context.Context, s connector.Settings, _ component.Config, n consumer.Metrics) (connector.Metrics, error) {
+		fMetricsToMetrics := func(_ context.Context, s connector.Settings, _ component.Config, n consumer.Metrics) (connector.Metrics, error) {
 			cp, cs := mk("metrics", "metrics", s.ID, n)
 			return metricsComp{cp, cs.Metrics}, nil
-		}, stable))
+		}
+		if usesProfiles {
+			xo = append(xo, xconnector.WithMetricsToMetrics(fMetricsToMetrics, stable))
+		} else {
+			o = append(o, connector.WithMetricsToMetrics(fMetricsToMetrics, stable))
+		}
 	}
 	if c.Supports("metrics", "traces") {
-		o = append(o, connector.WithMetricsToTraces(func(_ context.Context, s connector.Settings, _ component.Config, n consumer.Traces) (connector.Metrics, error) {
+		fMetricsToTraces := func(_ context.Context, s connector.Settings, _ component.Config, n consumer.Traces) (connector.Metrics, error) {
 			cp, cs := mk("metrics", "traces", s.ID, n)
 			return metricsComp{cp, cs.Metrics}, nil
-		}, stable))
+		}
+		if usesProfiles {
+			xo = append(xo, xconnector.WithMetricsToTraces(fMetricsToTraces, stable))
+		} else {
+			o = append(o, connector.WithMetricsToTraces(fMetricsToTraces, stable))
+		}
+	}
+	if c.Supports("metrics", "profiles") {
+		fMetricsToProfiles := func(_ context.Context, s connector.Settings, _ component.Config, n xconsumer.Profiles) (connector.Metrics, error) {
+			cp, cs := mk("metrics", "profiles", s.ID, n)
+			return metricsComp{cp, cs.Metrics}, nil
+		}
+		xo = append(xo, xconnector.WithMetricsToProfiles(fMetricsToProfiles, stable))
 	}
 	if c.Supports("traces", "logs") {
-		o = append(o, connector.WithTracesToLogs(func(_ context.Context, s connector.Settings, _ component.Config, n consumer.Logs) (connector.Traces, error) {
+		fTracesToLogs := func(_ context.Context, s connector.Settings, _ component.Config, n consumer.Logs) (connector.Traces, error) {
 			cp, cs := mk("traces", "logs", s.ID, n)
 			return tracesComp{cp, cs.Traces}, nil
-		}, stable))
+		}
+		if usesProfiles {
+			xo = append(xo, xconnector.WithTracesToLogs(fTracesToLogs, stable))
+		} else {
+			o = append(o, connector.WithTracesToLogs(fTracesToLogs, stable))
+		}
 	}
 	if c.Supports("traces", "metrics") {
-		o = append(o, connector.WithTracesToMetrics(func(_ context.Context, s connector.Settings, _ component.Config, n consumer.Metrics) (connector.Traces, error) {
+		fTracesToMetrics := func(_ context.Context, s connector.Settings, _ component.Config, n consumer.Metrics) (connector.Traces, error) {
 			cp, cs := mk("traces", "metrics", s.ID, n)
 			return tracesComp{cp, cs.Traces}, nil
-		}, stable))
+		}
+		if usesProfiles {
+			xo = append(xo, xconnector.WithTracesToMetrics(fTracesToMetrics, stable))
+		} else {
+			o = append(o, connector.WithTracesToMetrics(fTracesToMetrics, stable))
+		}
 	}
 	if c.Supports("traces", "traces") {
-		o = append(o, connector.WithTracesToTraces(func(_ context.Context, s connector.Settings, _ component.Config, n consumer.Traces) (connector.Traces, error) {
+		fTracesToTraces := func(_ context.Context, s connector.Settings, _ component.Config, n consumer.Traces) (connector.Traces, error) {
 			cp, cs := mk("traces", "traces", s.ID, n)
 			return tracesComp{cp, cs.Traces}, nil
-		}, stable))
+		}
+		if usesProfiles {
+			xo = append(xo, xconnector.WithTracesToTraces(fTracesToTraces, stable))
+		} else {
+			o = append(o, connector.WithTracesToTraces(fTracesToTraces, stable))
+		}
+	}
+	if c.Supports("traces", "profiles") {
+		fTracesToProfiles := func(_ context.Context, s connector.Settings, _ component.Config, n xconsumer.Profiles) (connector.Traces, error) {
+			cp, cs := mk("traces", "profiles", s.ID, n)
+			return tracesComp{cp, cs.Traces}, nil
+		}
+		xo = append(xo, xconnector.WithTracesToProfiles(fTracesToProfiles, stable))
+	}
+	if c.Supports("profiles", "logs") {
+		fProfilesToLogs := func(_ context.Context, s connector.Settings, _ component.Config, n consumer.Logs) (xconnector.Profiles, error) {
+			cp, cs := mk("profiles", "logs", s.ID, n)
+			return profilesComp{cp, cs.Profiles}, nil
+		}
+		xo = append(xo, xconnector.WithProfilesToLogs(fProfilesToLogs, stable))
+	}
+	if c.Supports("profiles", "metrics") {
+		fProfilesToMetrics := func(_ context.Context, s connector.Settings, _ component.Config, n consumer.Metrics) (xconnector.Profiles, error) {
+			cp, cs := mk("profiles", "metrics", s.ID, n)
+			return profilesComp{cp, cs.Profiles}, nil
+		}
+		xo = append(xo, xconnector.WithProfilesToMetrics(fProfilesToMetrics, stable))
+	}
+	if c.Supports("profiles", "traces") {
+		fProfilesToTraces := func(_ context.Context, s connector.Settings, _ component.Config, n consumer.Traces) (xconnector.Profiles, error) {
+			cp, cs := mk("profiles", "traces", s.ID, n)
+			return profilesComp{cp, cs.Profiles}, nil
+		}
+		xo = append(xo, xconnector.WithProfilesToTraces(fProfilesToTraces, stable))
+	}
+	if c.Supports("profiles", "profiles") {
+		fProfilesToProfiles := func(_ context.Context, s connector.Settings, _ component.Config, n xconsumer.Profiles) (xconnector.Profiles, error) {
+			cp, cs := mk("profiles", "profiles", s.ID, n)
+			return profilesComp{cp, cs.Profiles}, nil
+		}
+		xo = append(xo, xconnector.WithProfilesToProfiles(fProfilesToProfiles, stable))
+	}
+	if usesProfiles {
+		return xconnector.NewFactory(component.MustNewType(typeOf(c.ID)), newCfg, xo...)
 	}
 	return connector.NewFactory(component.MustNewType(typeOf(c.ID)), newCfg, o...)
 }
 
 // extensions ------------------------------------------------------------------
 
-type depExt struct {
-	*comp
-	deps []component.ID
-}
+type capDep struct{ deps []component.ID }
 
-func (d *depExt) Dependencies() []component.ID { return d.deps }
+func (d capDep) Dependencies() []component.ID { return d.deps }
+
+// capPW implements extensioncapabilities.PipelineWatcher.
+type capPW struct{ c *comp }
+
+func (p capPW) Ready() error    { return p.c.call("ready") }
+func (p capPW) NotReady() error { return p.c.call("notready") }
+
+// capCW implements extensioncapabilities.ConfigWatcher.
+type capCW struct{ c *comp }
+
+func (p capCW) NotifyConfig(context.Context, *confmap.Conf) error { return p.c.call("notifyconfig") }
+
+// call logs a capability callback and fails it when told to.
+func (c *comp) call(op string) error {
+	c.w.event(op, c.key, c.serial)
+	if c.w.FailCall[op+":"+c.faultKey] {
+		return c.fault(op)
+	}
+	return nil
+}
 
 func (w *World) extensionFactory() extension.Factory {
 	return extension.NewFactory(component.MustNewType(ExtType), newCfg,
@@ -639,14 +853,55 @@ func (w *World) extensionFactory() extension.Factory {
 				if x.ID != s.ID.String() {
 					continue
 				}
-				if x.Plain && len(x.Deps) == 0 {
-					return c, nil
-				}
-				d := &depExt{comp: c}
+				d := capDep{}
 				for _, dep := range x.Deps {
 					d.deps = append(d.deps, MustID(dep))
 				}
-				return d, nil
+				dep := !(x.Plain && len(x.Deps) == 0)
+				pw, cw := capPW{c}, capCW{c}
+				switch {
+				case dep && x.PipelineWatcher && x.ConfigWatcher:
+					return struct {
+						*comp
+						capDep
+						capPW
+						capCW
+					}{c, d, pw, cw}, nil
+				case dep && x.PipelineWatcher:
+					return struct {
+						*comp
+						capDep
+						capPW
+					}{c, d, pw}, nil
+				case dep && x.ConfigWatcher:
+					return struct {
+						*comp
+						capDep
+						capCW
+					}{c, d, cw}, nil
+				case dep:
+					return struct {
+						*comp
+						capDep
+					}{c, d}, nil
+				case x.PipelineWatcher && x.ConfigWatcher:
+					return struct {
+						*comp
+						capPW
+						capCW
+					}{c, pw, cw}, nil
+				case x.PipelineWatcher:
+					return struct {
+						*comp
+						capPW
+					}{c, pw}, nil
+				case x.ConfigWatcher:
+					return struct {
+						*comp
+						capCW
+					}{c, cw}, nil
+				}
+				return c, nil
 			}
 			return c, nil
 		}, stable)
@@ -723,6 +978,8 @@ func (w *World) Settings() service.Settings {
 		ExtensionsFactories: f.Extensions,
 		AsyncErrorChannel:   make(chan error, 16),
 		LoggingOptions:      NopLogging(),
+		CollectorConf:       confmap.New(), // extensions implementing ConfigWatcher are notified
+
 	}
 }
 
@@ -744,6 +1001,8 @@ func PipelineID(p Pipeline) pipeline.ID {
 		s = pipeline.SignalMetrics
 	case "traces":
 		s = pipeline.SignalTraces
+	case "profiles":
+		s = xpipeline.SignalProfiles
 	default:
 		panic("topo: unknown signal " + p.Signal)
 	}
@@ -769,8 +1028,8 @@ func (w *World) Config() service.Config {
 		},
 		Pipelines: pipelines.Config{},
 	}
-	for _, x := range w.T.Extensions {
-		cfg.Extensions = append(cfg.Extensions, MustID(x.ID))
+	for _, x := range w.T.ServiceExtensions() {
+		cfg.Extensions = append(cfg.Extensions, MustID(x))
 	}
 	for _, p := range w.T.Pipelines {
 		cfg.Pipelines[PipelineID(p)] = &pipelines.PipelineConfig{
@@ -808,7 +1067,7 @@ func (w *World) YAML() string {
 	section("extensions", exts)
 	b.WriteString("service:\n  telemetry:\n    metrics: {level: none}\n    logs: {level: error, encoding: json, output_paths: [/dev/null], error_output_paths: [/dev/null]}\n")
 	if len(exts) > 0 {
-		fmt.Fprintf(&b, "  extensions: [%s]\n", strings.Join(exts, ", "))
+		fmt.Fprintf(&b, "  extensions: [%s]\n", strings.Join(w.T.ServiceExtensions(), ", "))
 	}
 	b.WriteString("  pipelines:\n")
 	for _, p := range w.T.Pipelines {
